@@ -99,6 +99,7 @@ class SymExec:
         self.module_consts = module_constants(func.module)
         self.local_names = set(func.all_params) | {n.id for n in ast.walk(func.node) if isinstance(n, ast.Name)
                                                    and isinstance(n.ctx, (ast.Store, ast.Del))}
+        self.class_consts = class_constants(ctx, func.cls) if func.cls is not None else {}
 
     # ------------------------------------------------------------------ substitution
     raises = False      # True: a helper path that raises ends the caller's path as a raise too
@@ -148,6 +149,9 @@ class SymExec:
                 d = dotted(n)
                 if d is not None and d in env:
                     return env[d]
+                if isinstance(n.value, ast.Name) and n.value.id in ('self', 'cls') and n.value.id not in env and \
+                   n.attr in self.class_consts:
+                    return self.class_consts[n.attr]
             if self.bind_loops and isinstance(n, (ast.GeneratorExp, ast.ListComp)) and len(n.generators) == 1 \
                and not n.generators[0].ifs:
                 # element of a comprehension as an expression of the iterable: _each(elt[target := ITER[_k]])
@@ -476,7 +480,24 @@ class SymExec:
                 for i, t in enumerate(target.elts):
                     self._assign(t, ast.Subscript(value=value, slice=ast.Constant(value=i), ctx=ast.Load()), p, st)
         elif isinstance(target, ast.Subscript) and isinstance(target.value, ast.Subscript):
-            # X[i][j] = v : an element store two levels down; the container expressions stay opaque
+            # X[i][j] = v on a nested list literal with constant indices: the literal with that entry replaced
+            outer = target.value
+            nm = outer.value.id if isinstance(outer.value, ast.Name) else None
+            cur = p.env.get(nm) if nm else None
+            i_ = simplify(self.subst(outer.slice, p.env)) if isinstance(outer.slice, ast.AST) else None
+            j_ = simplify(self.subst(target.slice, p.env)) if isinstance(target.slice, ast.AST) else None
+            if isinstance(cur, ast.List) and isinstance(i_, ast.Constant) and isinstance(j_, ast.Constant) and \
+               isinstance(i_.value, int) and isinstance(j_.value, int) and not isinstance(i_.value, bool) and \
+               0 <= i_.value < len(cur.elts) and isinstance(cur.elts[i_.value], ast.List) and \
+               0 <= j_.value < len(cur.elts[i_.value].elts) and \
+               not any(isinstance(x, ast.Starred) for x in cur.elts + cur.elts[i_.value].elts):
+                rows = list(cur.elts)
+                row = list(rows[i_.value].elts)
+                row[j_.value] = value
+                rows[i_.value] = ast.List(elts=row, ctx=ast.Load())
+                p.env[nm] = ast.List(elts=rows, ctx=ast.Load())
+                return
+            # otherwise an element store two levels down; the container expressions stay opaque
             t2 = self.subst(copy_replace(target, lambda n: None), p.env)
             key = norm(t2)
             p.stores.append((key, value, st))
@@ -1089,6 +1110,10 @@ class SymExec:
                 keep = dotted(c0.func.value)  # the receiver of an in-place container method stays as written
             elif isinstance(c0.func, ast.Attribute) and isinstance(c0.func.value, ast.Name):
                 keep = c0.func.value.id      # the receiver of a method call statement stays a name
+                cur_ = p.env.get(keep)
+                if isinstance(cur_, ast.Subscript) and not isinstance(cur_.slice, ast.Slice) and \
+                   isinstance(cur_.value, (ast.Name, ast.Attribute, ast.Subscript)):
+                    keep = None              # ... unless it names an element: X[_k].method(...), T[key].method(...)
             for v, p2 in self.eval_expr(st.value, p if keep is None else _without(p, keep)):
                 v = self._tokenize(v, p2, st)
                 if keep is not None:
@@ -1321,6 +1346,12 @@ def simplify(e):
            n.func.attr in ('add', 'sub', 'mul', 'truediv'):
             op_ = {'add': ast.Add, 'sub': ast.Sub, 'mul': ast.Mult, 'truediv': ast.Div}[n.func.attr]()
             return ast.BinOp(left=n.args[0], op=op_, right=n.args[1])
+        if isinstance(n, ast.BinOp) and isinstance(n.op, ast.Mult) and isinstance(n.left, ast.List) and \
+           isinstance(n.right, ast.Constant) and isinstance(n.right.value, int) and not isinstance(n.right.value, bool) and \
+           0 <= n.right.value <= 8 and len(n.left.elts) * n.right.value <= 16 and \
+           not any(isinstance(x, ast.Starred) or (isinstance(x, ast.Constant) and isinstance(x.value, str))
+                   for x in n.left.elts):
+            return ast.List(elts=list(n.left.elts) * n.right.value, ctx=ast.Load())      # [a, b] * 2 (not text padding)
         if isinstance(n, ast.Call) and isinstance(n.func, ast.Attribute) and isinstance(n.func.value, ast.Constant) and \
            isinstance(n.func.value.value, str) and not n.args and not n.keywords and \
            n.func.attr in ('upper', 'lower', 'strip', 'lstrip', 'rstrip', 'title', 'capitalize'):
@@ -1518,6 +1549,42 @@ def loop_transformer(ctx, func, loop, depth=2, **kw):
 
 
 _MODULE_CONSTS = {}
+_CLASS_CONSTS = {}
+
+
+def class_constants(ctx, cls):
+    """{name: literal AST} for attributes assigned once in the class body to a literal table (tuple of
+    numbers / strings / tuples) and never assigned on an instance or on the class anywhere in the package"""
+    key = id(cls)
+    if key in _CLASS_CONSTS:
+        return _CLASS_CONSTS[key]
+
+    def literal(v):
+        if isinstance(v, ast.Constant):
+            return True
+        if isinstance(v, ast.Tuple):
+            return all(literal(x) for x in v.elts)
+        if isinstance(v, ast.UnaryOp) and isinstance(v.op, (ast.USub, ast.UAdd)):
+            return literal(v.operand)
+        return False
+    out = {}
+    body = getattr(getattr(cls, 'node', None), 'body', [])
+    counts = {}
+    for st in body:
+        if isinstance(st, ast.Assign) and len(st.targets) == 1 and isinstance(st.targets[0], ast.Name):
+            counts[st.targets[0].id] = counts.get(st.targets[0].id, 0) + 1
+            if isinstance(st.value, ast.Tuple) and literal(st.value):
+                out[st.targets[0].id] = st.value
+    out = {k: v for k, v in out.items() if counts.get(k) == 1}
+    if out:
+        stored = set()
+        for f in ctx.model.all_funcs():
+            for n in ast.walk(f.node):
+                if isinstance(n, ast.Attribute) and isinstance(n.ctx, (ast.Store, ast.Del)) and n.attr in out:
+                    stored.add(n.attr)
+        out = {k: v for k, v in out.items() if k not in stored}
+    _CLASS_CONSTS[key] = out
+    return out
 
 
 def module_constants(module):
